@@ -16,6 +16,9 @@
 (* 1984) on full-rank designs with p <= 2; rank-deficient designs are      *)
 (* skipped for alpha = 0.  For the multinomial model every pair of classes *)
 (* must be non-separable (then no direction of recession exists).          *)
+(* Initial parameters: none, or one of five small integer tables (zero     *)
+(* mean across the classes, a common offset of -2 / +2, all -2, irregular);*)
+(* InitProbe multiplies the tables over non-separable designs with alpha=0.*)
 (* Label type (bool / usize / String), label naming (which name the class  *)
 (* index gets, i.e. order of the names) and optional initial parameters    *)
 (* are spread over the data sets by a hash of the data set (Mix = FALSE) or*)
@@ -30,6 +33,7 @@ CONSTANTS NBin,      \* set of sample counts, binary model
           FormsB, FormsM,
           ThinBD, ThinB, ThinMD, ThinM,   \* hash moduli: data sets / configurations kept (1 = keep all)
           BigSet, ThinS,  \* feature-scale probes: large feature values, hash modulus
+          ThinP,          \* initial-parameter probes: hash modulus
           Mix        \* TRUE: label type x naming x init fully multiplied
 
 VARIABLE case
@@ -103,19 +107,43 @@ Thrs(n, p) == << [k |-> "default"], [k |-> "frac", a |-> 1, b |-> 4], [k |-> "ro
                  [k |-> "row", r |-> n + 1] >>
 QRows(p) == IF p = 1 THEN << <<0>>, <<1000>>, <<-1000>> >>
             ELSE << <<0, 0>>, <<1000, 1000>>, <<-1000, -1000>>, <<1000, -1000>> >>
+\* validity-only query rows: both signs, magnitudes 10^2 and 10^4 (10^3 is in QRows, where the value is checked too)
+QVRows(p) == IF p = 1 THEN << <<100>>, <<-100>>, <<10000>>, <<-10000>> >>
+             ELSE << <<100, 100>>, <<-100, -100>>, <<10000, 10000>>, <<-10000, -10000>>, <<10000, -10000>> >>
 InitVec == <<10, -10, 5>>
+\* index of the initial-parameter table of a variant: 0 = none (half of the cases), 1..5 see InitB / InitM
+IvOf(h) == IF h % 10 < 5 THEN 0 ELSE (h % 10) - 4
 
 Variants(h, K) ==
-  IF Mix THEN {[lt |-> LTypes(K)[l], nv |-> v, init |-> IF (h + l + v) % 3 = 0 THEN 1 ELSE 0] : l \in 1..3, v \in {0, 1}}
-  ELSE {[lt |-> LTypes(K)[(h % 3) + 1], nv |-> (h \div 3) % 2, init |-> IF h % 5 = 0 THEN 1 ELSE 0]}
+  IF Mix THEN {[lt |-> LTypes(K)[l], nv |-> v, init |-> IvOf(h + 3 * l + 7 * v)] : l \in 1..3, v \in {0, 1}}
+  ELSE {[lt |-> LTypes(K)[(h % 3) + 1], nv |-> (h \div 3) % 2, init |-> IvOf(h \div 6)]}
 
 FormIdx(form) == CASE form = "p1" -> 0 [] form = "x10" -> 1 [] form = "p2alt" -> 2 [] form = "p2sq" -> 3
                      [] form = "p2c" -> 4 [] form = "p2mix" -> 5 [] form = "x30" -> 6 [] form = "w30" -> 7
 PofForm(form) == Len(Row(form, 0, 1))
 Ord(seq, rv) == IF rv = 1 THEN Rev(seq) ELSE seq
-InitB(on, p, ic) == IF on = 1 THEN SubSeq(InitVec, 1, p + (IF ic THEN 1 ELSE 0)) ELSE <<>>
-InitM(on, p, ic, K) ==
-  IF on = 1 THEN [j \in 1..(p + (IF ic THEN 1 ELSE 0)) |-> [k \in 1..K |-> (((j * 7 + k * 11) % 9) - 4) * 3]] ELSE <<>>
+\* user-supplied initial parameters (value v/10), small integer tables enumerated by TLC.
+\* binary (vector of p (+1) entries): 1 mixed signs, 2 all -2, 3 all +2, 4 alternating -2 / +2, 5 as 1
+InitB(iv, p, ic) ==
+  LET m == p + (IF ic THEN 1 ELSE 0) IN
+  CASE iv = 0 -> <<>>
+    [] iv = 2 -> [j \in 1..m |-> -20]
+    [] iv = 3 -> [j \in 1..m |-> 20]
+    [] iv = 4 -> [j \in 1..m |-> IF j % 2 = 1 THEN -20 ELSE 20]
+    [] OTHER -> SubSeq(InitVec, 1, m)
+\* multinomial (p (+1) rows of K entries): 1 zero mean across the classes; 2 / 3 the same plus a common offset of
+\* -2 / +2 in every row (the soft-max is invariant under a common offset; for alpha = 0 the optimiser preserves it, so
+\* the fitted scores of a row with large |x| are all hugely negative or positive); 4 every entry -2; 5 an irregular table
+ZeroMeanD(K) == CASE K = 2 -> <<6, -6>> [] K = 3 -> <<9, -3, -6>> [] K = 4 -> <<9, -3, -6, 0>>
+ZeroMean(j, k, K) == (IF j % 2 = 1 THEN 1 ELSE -1) * ZeroMeanD(K)[k]
+InitM(iv, p, ic, K) ==
+  LET m == p + (IF ic THEN 1 ELSE 0) IN
+  CASE iv = 0 -> <<>>
+    [] iv = 1 -> [j \in 1..m |-> [k \in 1..K |-> ZeroMean(j, k, K)]]
+    [] iv = 2 -> [j \in 1..m |-> [k \in 1..K |-> ZeroMean(j, k, K) - 20]]
+    [] iv = 3 -> [j \in 1..m |-> [k \in 1..K |-> ZeroMean(j, k, K) + 20]]
+    [] iv = 4 -> [j \in 1..m |-> [k \in 1..K |-> -20]]
+    [] OTHER -> [j \in 1..m |-> [k \in 1..K |-> (((j * 7 + k * 11) % 9) - 4) * 3]]
 
 Code(form, an, ic, rv) == FormIdx(form) + 8 * (IF an = 0 THEN 0 ELSE IF an = 1 THEN 1 ELSE 2) + 24 * (IF ic THEN 1 ELSE 0) + 48 * rv
 \* thinning: a data set is kept iff Hash % ThinD = 0; a configuration of a kept data set iff (Hash + code) % ThinC = 0
@@ -131,7 +159,7 @@ BinInit ==
            /\ an = 0 => NonSep(rows, yy, ic)
            /\ \E var \in Variants(h \div ThinB, 2) :
                 case = [kind |-> "bin",
-                        inp |-> [x |-> rows, y |-> yy, p |-> p, q |-> QRows(p),
+                        inp |-> [x |-> rows, y |-> yy, p |-> p, q |-> QRows(p), qv |-> QVRows(p),
                                  lt |-> var.lt, names |-> NamesFor(var.lt, 2, var.nv),
                                  an |-> an, ad |-> 10, icpt |-> ic, init |-> InitB(var.init, p, ic),
                                  thrs |-> Thrs(n, p), maxit |-> 2000, te |-> IF (h \div 7) % 4 = 0 THEN 4 ELSE 6]]
@@ -151,7 +179,7 @@ MulInit ==
            /\ an = 0 => MultiNonSep(rows, yy, K, ic)
            /\ \E var \in Variants(h \div ThinM, K) :
                 case = [kind |-> "multi",
-                        inp |-> [x |-> rows, y |-> yy, p |-> p, q |-> QRows(p),
+                        inp |-> [x |-> rows, y |-> yy, p |-> p, q |-> QRows(p), qv |-> QVRows(p),
                                  lt |-> var.lt, names |-> NamesFor(var.lt, K, var.nv),
                                  an |-> an, ad |-> 10, icpt |-> ic, init |-> InitM(var.init, p, ic, K),
                                  maxit |-> 2000, te |-> IF (h \div 7) % 4 = 0 THEN 4 ELSE 6]]
@@ -165,12 +193,32 @@ ScaleInit ==
     /\ h % ThinS = 0
     /\ \E var \in Variants(h \div ThinS, 3) :
          case = [kind |-> "multi",
-                 inp |-> [x |-> [q \in 1..4 |-> <<xs[q]>>], y |-> ts, p |-> 1, q |-> QRows(1),
+                 inp |-> [x |-> [q \in 1..4 |-> <<xs[q]>>], y |-> ts, p |-> 1, q |-> QRows(1), qv |-> QVRows(1),
                           lt |-> var.lt, names |-> NamesFor(var.lt, 3, var.nv),
-                          an |-> 1, ad |-> 10, icpt |-> ic, init |-> InitM(ii, 1, ic, 3),
+                          an |-> 1, ad |-> 10, icpt |-> ic, init |-> InitM(5 * ii, 1, ic, 3),
                           maxit |-> 2000, te |-> 6]]
 
-Init == BinInit \/ MulInit \/ ScaleInit
+\* initial-parameter probes for the multinomial model: every class occurs at x = 0 and at x = 1 (two affinely
+\* independent rows, so the data is non-separable and alpha = 0 is admissible) plus at most one further row; every
+\* initial table 1..4; alpha = 0 (a common offset of the initial table survives the fit) and alpha = 1/1000
+ProbeRows(K, ex) ==
+  LET base == [q \in 1..(2 * K) |-> IF q <= K THEN 0 ELSE 1]
+      lab == [q \in 1..(2 * K) |-> (q - 1) % K]
+  IN IF ex = <<>> THEN <<base, lab>> ELSE <<Append(base, ex[1]), Append(lab, ex[2])>>
+InitProbe ==
+  \E K \in KMul \cap {2, 3, 4}, iv \in 1..4, ic \in BOOLEAN, ai \in {0, 1}, form \in {"p1", "x10"}, rv \in {0, 1} :
+  \E ex \in {<<>>} \cup {<<xx, cc>> : xx \in 0..2, cc \in 0..(K - 1)} :
+    LET pr == ProbeRows(K, ex)
+        h == 31 * Hash(pr[1], pr[2]) + 17 * (iv + 5 * ai + (IF ic THEN 10 ELSE 0) + 20 * rv + 40 * FormIdx(form)) + K
+    IN /\ h % ThinP = 0
+       /\ \E var \in Variants(h \div ThinP, K) :
+            case = [kind |-> "multi",
+                    inp |-> [x |-> Ord(RowsOf(form, pr[1]), rv), y |-> Ord(pr[2], rv), p |-> 1, q |-> QRows(1), qv |-> QVRows(1),
+                             lt |-> var.lt, names |-> NamesFor(var.lt, K, var.nv),
+                             an |-> ai, ad |-> IF ai = 0 THEN 10 ELSE 1000, icpt |-> ic, init |-> InitM(iv, 1, ic, K),
+                             maxit |-> 2000, te |-> IF (h \div 7) % 4 = 0 THEN 4 ELSE 6]]
+
+Init == BinInit \/ MulInit \/ ScaleInit \/ InitProbe
 Next == UNCHANGED case
 Emit == PrintT("CASE " \o ToJson(case))
 =============================================================================
